@@ -4,7 +4,8 @@
 //   pool_harness random  NW NT CLIENT SEED RUNS OUT    seeded random schedules
 //   pool_harness stress  NW NT CLIENT RUNS OUT         free-running real threads, outcome events only
 // CLIENT: P1 (add all, stop, join)  P2 (block-constructor pattern)  P3 (pinned-test pattern)
-//         P4 (P1 with two other pools alive at once; free-running mode only).
+//         P4 (P1 with two other pools alive at once; free-running mode only)
+//         P5 (P2 where task 1 waits until task 2 has started: needs a second worker to pick task 2 up).
 // OUT receives the ndjson traces of all executions, each introduced by a Reset event and closed by
 // an End event carrying the schedule that produced it.
 #include <sys/wait.h>
@@ -95,7 +96,14 @@ static void scenario(int nw, int nt, const std::string &client) {
     ev("StopCall");
     pool.stop_all_workers();
     pool.wait_workers();
-  } else if (client == "P2") {
+  } else if (client == "P2" || client == "P5") {
+    // P5: P2 with one dependency: the body of task 1 waits until the body of task 2 has been entered
+    const bool dep = client == "P5" && nt >= 2;
+    std::mutex dm;
+    std::condition_variable dcv;
+    bool started2 = false;
+    ds::name(dm.native_handle(), "dm");
+    ds::name(dcv.native_handle(), "dcv");
     for (int i = 1; i <= nt; i++) {
       ev("Submit", i);
       size_t idx;
@@ -104,8 +112,16 @@ static void scenario(int nw, int nt, const std::string &client) {
         idx = parts.size();
         parts.push_back(0);
       }
-      pool.add_task([i, idx, &m, &cv2, &done, &parts]() {
+      pool.add_task([i, idx, dep, &m, &cv2, &done, &parts, &dm, &dcv, &started2]() {
         ev("TaskRun", i);
+        if (dep && i == 2) {
+          { std::lock_guard<std::mutex> lg(dm); started2 = true; }
+          dcv.notify_all();
+        }
+        if (dep && i == 1) {
+          std::unique_lock<std::mutex> ul(dm);
+          dcv.wait(ul, [&]() { return started2; });
+        }
         {
           std::lock_guard<std::mutex> lg(m);
           parts[idx] = i;
